@@ -15,6 +15,7 @@ from .common import (ALL_KINDS, short, inst, calls_in, callee_func, member_path,
 
 # what the property statement says is compared, per kind
 REFERENCE = {
+    'None': ({'kind'}, {'metadata'}),                       # a None node matches a None node only
     'Tuple': ({'kind', 'arity'}, {'metadata'}),
     'List': ({'kind', 'arity'}, {'metadata'}),
     'Deque': ({'kind', 'arity'}, {'metadata'}),             # maxlen is NOT compared
@@ -46,6 +47,8 @@ def atoms_of(validations):
                 out.add('family')
             if re.search(r'arity != arity|len\(\w+\) != arity|COUNTED != arity|arity != COUNTED', p):
                 out.add('arity')
+            if re.search(r'!is_none\(SELF', p):
+                out.add('kind')                # the object met where the treespec has a None node is not None
             if re.search(r'!DictKeysEqual', p):
                 out.add('keyset')
             if re.search(r'(?<!!)not_equal\(|!equal\(', p):
